@@ -36,6 +36,10 @@ theorem query_args_pass_client_text :
       ("_middlewares", "self.middlewares"), ("_query", "self.query")] ∧ Mimic.Extracted.Session.loopSource = "self._parse(sql)" := by
   decide
 
+/-- the chain is entered through `next()`, which hands each middleware the rest of the chain: every middleware is
+    entered at most once per statement -/
+theorem chain_entered_through_next : Mimic.Extracted.Session.startBody = "return await self.next()" := by decide
+
 /-- each interceptor tests the statement class the model assumes, and falls through to `q.next()` -/
 theorem intercept_tests :
     Mimic.Extracted.Session.interceptTests.map (fun t => (t.1, t.2.1)) =
